@@ -1,5 +1,6 @@
 import ErgoVerif.Drive.Util
 import ErgoVerif.Model.Meta
+import ErgoVerif.Generated.Meta
 namespace ErgoVerif.Drive.Meta
 open ErgoVerif ErgoVerif.Drive ErgoVerif.Meta
 
@@ -30,7 +31,7 @@ def line (s : Option Cfg) (ln : String) : Option Cfg × String :=
         | [] => (some c, showCfg c)
         | l :: rest => match parseLbl l with
           | none => (none, s!"bad-op {l}")
-          | some lb => match step c lb with
+          | some lb => match step ErgoVerif.Gen.Meta.startHandsOff c lb with
             | none => (none, s!"disabled {l}")
             | some c' => go c' rest
       go c (ls.splitOn ",")
